@@ -149,8 +149,21 @@ func runChanges(cfg *Config) *Result {
 				res.problem(Problem{Kind: "correspondence", Stream: "changes", Case: treeCase[i], Model: truncate(mo, 200), Msg: "tree diff model did not answer"})
 				continue
 			}
+			toks := f[2:]
+			// last token: the hypotheses of C04b.apply_changes_reproduces evaluated by the driver on these trees
+			// (new tree ok, old tree ok: sibling names distinct, only directories have children, the mode word
+			// carries the type)
+			if n := len(toks); n > 0 && strings.HasPrefix(toks[n-1], "H") {
+				h := toks[n-1]
+				toks = toks[:n-1]
+				res.count("treediff:hypotheses:" + h)
+				if len(h) != 3 || h[1] != '1' || h[2] != '1' {
+					res.problem(Problem{Kind: "correspondence", Stream: "changes", Case: treeCase[i], Model: h,
+						Msg: "the trees the library collected do not meet the hypotheses of the tree-level theorems (distinct sibling names, children only under directories, type bit in the mode word)"})
+				}
+			}
 			var ms []string
-			for _, t := range f[2:] {
+			for _, t := range toks {
 				ms = append(ms, t[:1]+unhx(t[1:]))
 			}
 			var gs []string
